@@ -246,8 +246,8 @@ def _grid(rng, x, dx, pattern):
                [x[0] - dx * (rng.uniform(2, 50) + j) for j in range(rng.randrange(3, 30))][::-1]
     if pattern == 'tail':
         # only the first one or two pixels overlap the end of the data
-        k = rng.choice([1, 2])
-        return [x[n - k] + dx * (0.11 + j) for j in range(rng.randrange(4, 20))]
+        k = rng.choice([1, 2, 3, 3])
+        return [x[n - k] + dx * (rng.choice([0.11, 0.5, 0.93]) + j) for j in range(rng.randrange(4, 20))]
     if pattern == 'tailfine':
         # a finer grid whose first two to four pixels lie inside one of the last input intervals
         st = rng.choice([0.3, 0.45, 0.6, 0.8])
@@ -749,7 +749,8 @@ def _agree_self(c, real, m, ctx=None):
         return '', 'flux<=1e-9'
     cond = _cond(real)
     if ctx is not None and cond < float('inf'):
-        ctx.count('self:log10(diff/(eps*cond))=%d' % int(math.floor(math.log10(max(d / fs / (2.2e-16 * cond), 1e-30)))))
+        q_ = d / fs / (2.2e-16 * cond)
+        ctx.count('self:log10(diff/(eps*cond))=%s' % (int(math.floor(math.log10(max(q_, 1e-30)))) if math.isfinite(q_) else 'nonfinite'))
     if cond > 1e12:
         return '', 'ill-conditioned(cond>1e12,not judged)'
     if d <= (1e-9 + 1e-13 * cond) * fs:
@@ -1019,6 +1020,10 @@ def _directed(rng):
         cases.append(_case(rng, kind='1d', method=me, gridp=rng.choice(['shift', 'wider']), zerop=rng.choice(['none', 'runs'])))
     for me in METHODS:
         cases.append(_case(rng, kind='1d', method=me, gridp=rng.choice(['outside', 'tail', 'head'])))
+    # one or two good output pixels at the very start / end of the output grid, every method (damp's roll-off lengths are 0 / 1 there)
+    for me in METHODS:
+        for gp in ('tail', 'tail', 'tail', 'head', 'head'):
+            cases.append(_case(rng, kind='1d', method=me, gridp=gp, zerop=rng.choice(['none', 'none', 'singles'])))
         cases.append(_case(rng, kind='1d', method=me, gridp='tailfine', zerop='none'))
     cases.append(_case(rng, kind='1d', fluxp='smooth', zerop='none', gridp='same', method=None, ivp='flat'))
     cases.append(_case(rng, kind='1d', fluxp='smooth', zerop='none', gridp='same', method=None, ivp='none'))
